@@ -71,7 +71,8 @@ def make(pid, algos, quick_per_algo=12, thorough_per_algo=150, forces=None, salt
 
     # extreme but documented configurations met by every algorithm on every run: a box far from the origin (cells reach
     # float resolution after a few dozen levels), a tiny box, and parameters that make the tree deep quickly
-    DEEP = {"Zooming": {"nu": 1e3, "rho": 0.9}, "DOO": {"n": 150, "delta_c": 1.0, "delta_g": 0.5, "delta_kind": "zero"}}
+    DEEP = {"Zooming": {"nu": 1e3, "rho": 0.9}, "DOO": {"n": 150, "delta_c": 1.0, "delta_g": 0.5, "delta_kind": "zero"},
+            "VROOM": {"n": 128, "h_max": 100, "b": 1.0, "f_max": 1.0}}
 
     def specs(seed, n, extra_salt=0):
         out = []
@@ -82,7 +83,9 @@ def make(pid, algos, quick_per_algo=12, thorough_per_algo=150, forces=None, salt
                 for j, bm in enumerate(["far", "tiny", "far"]):
                     f = {"bmode": bm}
                     if a in DEEP and j != 1:
-                        f["params"] = dict(DEEP[a]); f["T"] = 150
+                        f["params"] = dict(DEEP[a]); f["T"] = 150 if a != "VROOM" else 30
+                        if a == "VROOM":
+                            f.update(kind="binary", K=2, d=2)
                     out.append((seed + salt + extra_salt, 300000 + j, a, f))
         # a few runs in the thousands of rounds (what only shows once a cell holds > 1000 rewards, a counter passes 2^10, ...)
         for j, (a, f) in enumerate(long_runs):
